@@ -209,13 +209,13 @@ CHECKS = {
             "trusted": "replay/src/probe_fx.rs: the oracle (path product on the quote tree found by breadth-first search) is written from the property text; rustc codegen",
         },
         "level": "other",
-        "explanation": "mixed: the rejection clauses, the two seeding functions and the SOUNDNESS of the fill-in recursion (every value written is consistent with every potential vector of the quotes; nothing populated is overwritten) are proved (Verus); termination of the fill-in is proved too; completeness of the fill-in for every tree is only explored by a bounded probe, independence of quote order / base is a lemma conditional on a potential plus the probe on the real code (labelled bounded, not proved)",
+        "explanation": "mixed: the rejection clauses, the two seeding functions, and for the fill-in recursion soundness (every value written is consistent with every potential vector of the quotes; nothing populated is overwritten), termination and completeness (Ok exactly for connected quote graphs) are proved (Verus) relative to assumed contracts of its three iterator chains; order / base independence is a lemma conditional on a potential; the bounded probe on the real code (labelled bounded, not proved) explores the same clauses without those assumptions",
         "assumptions": CHRONO_ASSUMPTIONS + [
             "create_initial_fx_array is verified over the abstract ring of shim/ring.rs (f64 / Dual / Dual2 instances assumed to satisfy its axioms)",
             "IndexSet<Ccy> get_index_of / insert / len, Array2::eye, slice iteration: shim contracts",
         ],
         "uncovered": [
-            "mut_arrays_remaining_elements: TERMINATION is proved (lexicographic measure: unpopulated edges, then unvisited nodes; HashSet cardinality facts assumed); COMPLETENESS (every tree is filled; cyclic quote sets of the right count are rejected) is NOT proved (bounded probe only); its three selection expressions (iterator chains choosing the node and the open pairs) are ASSUMED contracts",
+            "mut_arrays_remaining_elements: TERMINATION is proved (lexicographic measure: unpopulated edges, then unvisited nodes; HashSet cardinality facts assumed) and so is COMPLETENESS in both directions: the result is Ok exactly when the seeded quote graph is connected (a connected graph with a missing edge has a vertex with two unconnected neighbours; populating keeps components) - so every tree is filled and a quote set of the right count that is not a tree (hence not connected - that step is textbook) is refused; its three selection expressions (iterator chains choosing the node and the open pairs) are ASSUMED contracts",
             "create_fx_array: its body is under the relational contract lift_post (C10: lifting, naming, conversion, seeding + filling through `_g` stand-ins of the two generic callees); that the stand-ins are the Rg-instances proved here is a declared link, not a proof; existence of a potential vector for a tree of quotes is textbook and not machine-checked",
             "independence of quote order and base currency: proved CONDITIONALLY (lemma_fx_order_independent): two completed fills of markets that share a potential (an assignment of invertible elements to currencies with quote * p(dom) == p(for)) agree on every ordered pair of currencies; that a tree of quotes HAS a potential is textbook and not machine-checked; unconditional exploration by the bounded probe",
         ],
